@@ -86,6 +86,8 @@ type lpCase struct {
 	MultV     int64  `json:"mult"`
 	Base      string `json:"base"`
 	K         int    `json:"k"`
+	Neg       bool   `json:"neg"`
+	Digits    []int  `json:"digits"` // literal timestamp token (far from the boundaries, leading zeros)
 	Accept    bool   `json:"accept"`
 }
 
@@ -1103,7 +1105,24 @@ func runTime(c *lpCase, env *rt.Env) rt.Result {
 	}
 	tok := new(big.Int).Quo(big.NewInt(base), big.NewInt(c.MultV)) // truncates towards zero
 	tok.Add(tok, big.NewInt(int64(c.K)))
-	line := "a a=1 " + tok.String()
+	tokText := tok.String()
+	if len(c.Digits) > 0 {
+		var sb strings.Builder
+		if c.Neg {
+			sb.WriteByte('-')
+		}
+		for _, d := range c.Digits {
+			if d < 0 || d > 9 {
+				return rt.Infra("bad digit in time case")
+			}
+			sb.WriteByte(byte('0' + d))
+		}
+		tokText = sb.String()
+		if _, ok := tok.SetString(tokText, 10); !ok {
+			return rt.Infra("bad literal token " + tokText)
+		}
+	}
+	line := "a a=1 " + tokText
 	var pts []models.Point
 	var err error
 	g := guard(func() { pts, err = models.ParsePointsWithPrecision([]byte(line), time.Unix(0, 0), c.Precision) })
@@ -1117,7 +1136,7 @@ func runTime(c *lpCase, env *rt.Env) rt.Result {
 		return rt.Fail(0, fmt.Sprintf("line %q precision %s: %d points and err=%v", line, c.Precision, len(pts), err), nil, nil)
 	}
 	if accepted != c.Accept {
-		return rt.Fail(0, fmt.Sprintf("line %q precision %s: accepted=%v, specification says %v (token = %s/%d%+d)", line, c.Precision, accepted, c.Accept, c.Base, c.MultV, c.K), accepted, c.Accept)
+		return rt.Fail(0, fmt.Sprintf("line %q precision %s: accepted=%v, specification says %v (token = %s/%d%+d or literal)", line, c.Precision, accepted, c.Accept, c.Base, c.MultV, c.K), accepted, c.Accept)
 	}
 	if accepted {
 		if _, probs := observe(pts[0], true, time.Time{}); len(probs) > 0 {
